@@ -1049,6 +1049,8 @@ class CallMixin:
             env[("final_" + gname)] = env2["final_" + gname]
         post_st = St(env2, post.heap, [], pre_st, post.ghost)
         for lab, e in c.ensures:
+            if lab.startswith("rt:"):
+                continue
             post.assume(self.spec_bool(e, post_st))
         out = []
         # 4. exceptional exits
